@@ -238,13 +238,15 @@ private theorem extendSchema_err (env : Env) (live : Live) (doc : Doc) (add : Li
   simp only [] at h
   split at h
   · simp [pure, Except.pure] at h
-  · rcases bind_err _ _ _ h with h1 | ⟨_, _, h2⟩
-    · exact mapM_err _ (extendType_err env _) _ e h1
-    · rcases bind_err _ _ _ h2 with h3 | ⟨_, _, h4⟩
-      · rw [failIf_err _ _ _ h3]; exact good_lib _
-      · rcases bind_err _ _ _ h4 with h5 | ⟨_, _, h6⟩
-        · exact foldlM_err _ (fun acc x e h => addOps_err _ _ _ _ e h) _ _ e h5
-        · simp [pure, Except.pure] at h6
+  · rcases bind_err _ _ _ h with h0 | ⟨_, _, h'⟩
+    · rw [failIf_err _ _ _ h0]; exact good_lib _
+    · rcases bind_err _ _ _ h' with h1 | ⟨_, _, h2⟩
+      · exact mapM_err _ (extendType_err env _) _ e h1
+      · rcases bind_err _ _ _ h2 with h3 | ⟨_, _, h4⟩
+        · rw [failIf_err _ _ _ h3]; exact good_lib _
+        · rcases bind_err _ _ _ h4 with h5 | ⟨_, _, h6⟩
+          · exact foldlM_err _ (fun acc x e h => addOps_err _ _ _ _ e h) _ _ e h5
+          · simp [pure, Except.pure] at h6
 
 /-- **build_rejects**: whatever the document, the flags and the supplied types, if the builder does not return a
     schema it fails with `SDLError`, `ExtensionError` or `SchemaError` — or with the `RecursionError` of finding
